@@ -43,7 +43,7 @@ struct Problem {
 	// data
 	std::vector<std::vector<unsigned>> idx; std::vector<double> z, w;
 };
-static void build_data(Problem& p, Rng& rng, bool increasing = false, double scale = 1.0) {
+static void build_data(Problem& p, Rng& rng, int increasing = 0, double scale = 1.0) {
 	std::vector<int> g(p.nd); size_t rows = 1; for (int d = 0; d < p.nd; d++) { g[d] = (int)AX[p.axes[d]].xs.size(); rows *= g[d]; }
 	p.idx.assign(p.nd, {}); p.z.clear(); p.w.clear();
 	for (size_t r = 0; r < rows; r++) {
@@ -53,6 +53,9 @@ static void build_data(Problem& p, Rng& rng, bool increasing = false, double sca
 		for (int d = 0; d < p.nd; d++) p.idx[d].push_back(id[d]);
 		double zz = (double)((long)rng.below(11) - 5) + 0.25 * (double)rng.below(4);
 		if (increasing) { zz = 2.0; for (int d = 0; d < p.nd; d++) zz += 1.5 * AX[p.axes[d]].xs[id[d]] - 1.5 * AX[p.axes[d]].xs[0]; zz += 0.01 * (double)rng.below(3); }
+		// increasing == 2: the same trend with low outliers at the upper end of every dimension - with enough smoothing the
+		// unconstrained solution is still increasing (constraint inactive), but not every increment has a positive right-hand side
+		if (increasing == 2) { bool top = true; for (int d = 0; d < p.nd; d++) top = top && id[d] + 2 >= (unsigned)g[d]; if (top) zz -= 6.0 + (double)rng.below(3); }
 		p.z.push_back(zz * scale); p.w.push_back(p.wp == 1 ? 1.0 : 1.0 + (double)((r * 3) % 5));
 	}
 }
@@ -145,7 +148,7 @@ int main(int argc, char** argv) {
 		// monotonic fits: a third of the problems with the data scaled by an exact power of two (the solvers' tolerances are
 		// absolute); for those only the ordering of the coefficients is judged, not the inactive-constraint clause
 		static const double SC[] = {1.0, 1.0, 1.0, 1.0 / 8192, 1.0, 1.0 / 8388608, 1.0, 1.0, 256.0};
-		np++; double scale = mono ? SC[np % 9] : 1.0; build_data(p, rng, mono && np % 2 == 0, scale);
+		np++; double scale = mono ? SC[np % 9] : 1.0; build_data(p, rng, mono ? (np % 4 == 0 ? 1 : np % 4 == 2 ? 2 : 0) : 0, scale);
 		// unconstrained fits: some problems with all weights AND all smoothing strengths multiplied by one power of two - the
 		// normal equations scale as a whole and the minimiser is the same (nothing in the solver may depend on their absolute size)
 		static const int WS[] = {0, 0, -40, 0, -55, 0, 30};
